@@ -1,6 +1,7 @@
 (* C38: HTTP/2 responses carry exactly the handler's response.  Property theorems only.
    frames_of e ops (model/H2Resp.v) = the frames bfe_http2 writes on a response stream when the handler performs the
-   operations ops (Header().Set/Add, WriteHeader, Write, Flush, in any order) and returns; e says whether the request
+   operations ops (Header().Set/Add, raw map access Header()[k] = append(..), WriteHeader, Write, Flush, in any order) and
+   returns; e says whether the request
    was HEAD, the size of the response bufio.Writer and the keys of HopHeaders.  f_end f = frame f carries END_STREAM.
    The model describes the code after the two repairs recorded in known_findings/C38.txt. *)
 From Coq Require Import List ZArith Bool.
@@ -27,7 +28,8 @@ Print Assumptions C38_body_exact.
 
 (* Header fields: in every HEADERS frame of the response -- the response headers and the trailers -- every field name
    is lower case (no_upper) and is none of connection, keep-alive, proxy-connection, transfer-encoding, upgrade
-   (fields_ok), whatever the handler put into its header map through Header().Set/Add, provided the HopHeaders list
+   (fields_ok), whatever the handler put into its header map through Header().Set/Add or by direct map access with
+   arbitrary (also non-canonical) keys, provided the HopHeaders list
    contains the canonical spelling of these five names (hop_ok; Example C38_hop_ok_real: true of the real list). *)
 Theorem C38_connection_specific_removed : forall e ops,
   hop_ok (e_hop e) ->
@@ -119,6 +121,38 @@ Example C38_wire_example :
   wire_frames 3 4 [FH false []; FD true [1;2;3;4;5;6;7;8;9;10]]
   = [FH false []; FD false [1;2;3;4]; FD false [5;6;7]; FD true [8;9;10]].
 Proof. exact wire_example. Qed.
+
+(* HEADERS/CONTINUATION: writeResHeaders.writeFrame cuts an encoded header block b (response headers or trailers) into
+   fragments (header_fragments b: each fragment with its END_HEADERS flag; the first is the HEADERS frame, the others
+   CONTINUATION frames).  For every block: the fragments concatenate to the block, every fragment is non-empty and at
+   most 16384 bytes, and for a non-empty block exactly the last fragment carries END_HEADERS. *)
+Theorem C38_header_block_split : forall b,
+  let fs := header_fragments b in
+  concat (map fst fs) = b
+  /\ Forall (fun x => 0 < blen (fst x) <= max_hdr_frame) fs
+  /\ (b <> [] -> exists pre l, fs = pre ++ [(l, true)] /\ Forall (fun x => snd x = false) pre).
+Proof. exact header_fragments_ok. Qed.
+Print Assumptions C38_header_block_split.
+
+(* The harness observes the fragment lengths and flags of every header block the real server writes; agree_C38 validates
+   them against header_fragment_lens (total length), which is the length view of the split above ... *)
+Theorem C38_header_fragment_lens_of_block : forall b,
+  header_fragment_lens (blen b) = map (fun x => (blen (fst x), snd x)) (header_fragments b).
+Proof. exact header_fragment_lens_of_block. Qed.
+Print Assumptions C38_header_fragment_lens_of_block.
+
+(* ... and the executable predicate block_ok that prop_C38 applies to the observed fragments (at least one fragment, each
+   1..16384 bytes, END_HEADERS on the last and only there) holds of the model's split of every non-empty block. *)
+Theorem C38_header_fragment_lens_ok : forall l, 0 < l -> block_ok (header_fragment_lens l) = true.
+Proof. exact header_fragment_lens_ok. Qed.
+Print Assumptions C38_header_fragment_lens_ok.
+
+Example C38_header_split_boundaries :
+  map snd (header_fragment_lens 16383) = [true] /\ header_fragment_lens 16384 = [(16384, true)]
+  /\ header_fragment_lens 16385 = [(16384, false); (1, true)]
+  /\ header_fragment_lens 32768 = [(16384, false); (16384, true)]
+  /\ header_fragment_lens 32769 = [(16384, false); (16384, false); (1, true)].
+Proof. exact header_fragments_examples. Qed.
 
 (* a corpus case (declared, unset trailer) satisfies wf_C38 *)
 Example C38_corpus_case_wf : wf_C38 corpus_case = true /\ prop_C38 corpus_case (run_C38 corpus_case) = true.
